@@ -33,17 +33,19 @@ CHECK_DEADLOCK FALSE
        'TLongAgo' if trace else 'MCLongAgo', '\n'.join(inv), 'INVARIANT Reporter' if trace else '')
 
 
-def _machine():
-    if 'h' not in _H:
-        h = harness.boot('base')
-        _H['h'] = h
-        _H['sink'] = [None]
+def _machine(prod=False):
+    key = 'h_prod' if prod else 'h'
+    if key not in _H:
+        # production mode takes different branches in the switch controller (no duplicate warning)
+        h = harness.boot('base', options={'production': True} if prod else None)
+        _H[key] = h
+        _H.setdefault('sink', [None])
         ev = h.machine.events
         for s in SWS:
             for n, suffix in ((1, 'active'), (0, 'inactive')):
                 ev.add_handler('%s_%s' % (s, suffix), _mk_ev(('deliver', s, n)))
         ev.add_handler('s_no_held', _mk_ev(('held',)))
-    return _H['h']
+    return _H[key]
 
 
 def _mk_ev(tag):
@@ -55,8 +57,8 @@ def _mk_ev(tag):
 
 
 class SwitchRun:
-    def __init__(self, sched, unit):
-        self.h = _machine()
+    def __init__(self, sched, unit, prod=False):
+        self.h = _machine(prod)
         self.m = self.h.machine
         self.sc = self.m.switch_controller
         self.sched = sched
@@ -179,9 +181,10 @@ class SwitchRun:
 
 
 def exec_schedule(job):
-    sched, unit = job
+    sched, unit = job[0], job[1]
+    prod = bool(job[2]) if len(job) > 2 else False
     try:
-        return {'ev': SwitchRun(sched, unit).run(), '_unit': unit}
+        return {'ev': SwitchRun(sched, unit, prod).run(), '_unit': unit, '_prod': prod}
     except Exception as ex:  # pylint: disable=broad-except
         import traceback
         _H['sink'][0] = None
@@ -228,7 +231,8 @@ def run(ctx):
                     .replace('PROPERTY DuplicateInert\n', '').replace('PROPERTY RemovedNeverFires\n', ''))
         behs, _ = tlc.simulate(wd, 'SwitchesMC', 'Gen.cfg', num=per_unit, depth=30 if ctx.quick else 44,
                                seed=ctx.seed + u)
-        jobs = [([s['act'] for s in b], u) for b in behs] + [(s, u) for s in handmade(u)]
+        jobs = [([s['act'] for s in b], u, k % 3 == 0) for k, b in enumerate(behs)]
+        jobs += [(s, u, False) for s in handmade(u)] + [(s, u, True) for s in handmade(u)]
         traces = harness.pmap(exec_schedule, jobs, chunk=8)
         with open(wd + '/Trace.cfg', 'w') as f:
             f.write(cfg_text('TSpec', hu, 10 ** 6, 10 ** 6, '{"h1", "h2", "h3"}', '{}', trace=True))
@@ -246,15 +250,15 @@ def run(ctx):
                 continue
             sig = 'C03:%s:%s-after-%s' % (info.get('monitor') or 'step', fe.get('op', 'end'), pe.get('op', 'start'))
             ctx.violation(sig, 'switch controller execution not explained by Switches spec (unit %dms) at line %s: %s (prev %s)'
-                          % (u, info.get('line'), fe, pe), {'job': [jobs[i][0], u], 'trace': traces[i], 'info': info})
+                          % (u, info.get('line'), fe, pe), {'job': [jobs[i][0], u, jobs[i][2]], 'trace': traces[i], 'info': info})
     ctx.assumptions += ['virtual time; one report at a time (no report from inside a switch handler)',
                         'ignore_window_ms (recycle) switches are not part of this model']
 
 
 def replay(ctx, data):
     d = data['replay']
-    sched, u = d['job']
-    tr = exec_schedule((sched, u))
+    sched, u = d['job'][0], d['job'][1]
+    tr = exec_schedule(tuple(d['job']))
     print('replay trace:', tr['ev'])
     wd = tlc.prepare(ctx.scratch, 'Switches', 'switches')
     with open(wd + '/Trace.cfg', 'w') as f:
